@@ -186,6 +186,7 @@ class Ctx:
                     # shrinking: bounded by its own budget; once exhausted every input "fails" so that the
                     # shrinker terminates at once and the best genuine failure seen so far is kept
                     if time.time() > last["shrink_until"]:
+                        last["cut"] = True
                         raise _Stop(last["f"].bucket)
                 elif self.out_of_time():
                     return
@@ -210,7 +211,17 @@ class Ctx:
                 self.failures.append(f)
                 remaining -= max(1, self.evals - n_before)
                 continue
-            except hypothesis.errors.Flaky as exc:  # nondeterministic body: harness problem
+            except hypothesis.errors.Flaky as exc:
+                if last.get("cut"):
+                    # shrinking was cut short by its time budget (Hypothesis notices the forced stop): keep the
+                    # smallest genuine failure seen so far
+                    f = last["f"]
+                    self._session_buckets.add(f.bucket)
+                    self.failures.append(f)
+                    self.note("shrinking of a failure was cut short by its time budget")
+                    remaining -= max(1, self.evals - n_before)
+                    continue
+                # nondeterministic body: harness problem
                 raise HarnessError(f"flaky hypothesis test: {exc}") from exc
             break
 
